@@ -9,7 +9,7 @@ git -C /repo worktree add --detach "$W" HEAD >/dev/null 2>&1 || { echo "worktree
 trap 'git -C /repo worktree remove --force "$W" >/dev/null 2>&1; rm -rf "$W"' EXIT
 run_demo() { (cd "$W" && PYTHONPATH="$W" MPLBACKEND=Agg timeout 600 /venv/bin/python "$DEMO" >/tmp/demo.out 2>&1; echo $?); }
 echo "demo without change: exit $(run_demo)"
-git -C "$W" apply "$PATCH" || { echo "PATCH DOES NOT APPLY"; exit 2; }
+git -C "$W" apply "$PATCH" 2>/dev/null || git -C "$W" apply -3 "$PATCH" || { echo "PATCH DOES NOT APPLY"; exit 2; }
 echo "demo with change:    exit $(run_demo)  ($(tail -1 /tmp/demo.out | cut -c1-200))"
 if [ "$NOSUITE" != "--no-suite" ]; then
   (cd "$W" && PYTHONPATH="/verif/tools/seedsite:$W" /venv/bin/python -m pytest -q -p no:cacheprovider --timeout=900 discretisedfield/tests -n 8 2>&1 | tail -4)
